@@ -23,10 +23,11 @@ type BArr struct {
 
 // Obj is a heap/stack cell holding one Value tree.
 type Obj struct {
-	id  int
-	v   Value
-	typ types.Type
-	tag string
+	id     int
+	v      Value
+	typ    types.Type
+	tag    string
+	shared string // name of the package-level variable this object is the storage of ("" otherwise)
 }
 
 // Ptr points into an Obj (path of field/element indices) or, when b != nil,
@@ -97,6 +98,7 @@ type mapSlot struct {
 type ChanV struct {
 	id     int
 	closed bool
+	ticker bool // the C of a time.Ticker (join model): a tick may be pending at any time
 }
 
 // ---------- byte objects ----------
@@ -111,14 +113,15 @@ type logEntry struct {
 
 // BObj is a byte array with a write log over a base content.
 type BObj struct {
-	id   int
-	base string // SMT array constant; "" otherwise
-	conc []byte // concrete base (when base == "" and conc != nil); zeros otherwise
-	log  []logEntry
-	size *Term // allocation size (cap of the original slice)
-	max  int   // concrete upper bound for size if known, else -1
-	ro   bool  // string data
-	tag  string
+	id     int
+	base   string // SMT array constant; "" otherwise
+	conc   []byte // concrete base (when base == "" and conc != nil); zeros otherwise
+	log    []logEntry
+	size   *Term // allocation size (cap of the original slice)
+	max    int   // concrete upper bound for size if known, else -1
+	ro     bool  // string data
+	tag    string
+	shared string // name of the package-level variable whose storage this is ("" otherwise)
 }
 
 const maxReadDepth = 400
@@ -194,6 +197,7 @@ func (e *Exec) bstore(o *BObj, i, v *Term) {
 	if v.w != 8 {
 		panic(fmt.Sprintf("bstore width %d", v.w))
 	}
+	e.sharedWrite(o.shared)
 	o.log = append(o.log, logEntry{store: true, idx: i, val: v})
 }
 
@@ -204,6 +208,7 @@ func (e *Exec) bcopy(dst *BObj, d *Term, src *BObj, so *Term, n *Term) {
 	if n.isConst() && n.k == 0 {
 		return
 	}
+	e.sharedWrite(dst.shared)
 	// very small concrete copies become single stores
 	if n.isConst() && n.k <= 2 {
 		vals := make([]*Term, n.k)
